@@ -917,14 +917,12 @@ def ordered_arguments(
   ):
     if param.kind not in (param.VAR_POSITIONAL, param.VAR_KEYWORD):
       value = unset
-      if name in buildable.__arguments__ or (
-          index in buildable.__arguments__
-          and param.kind == param.POSITIONAL_ONLY
-      ):
-        if name in buildable.__arguments__:
-          value = buildable.__arguments__[name]
-        else:
-          value = buildable.__arguments__[index]
+      # Positional-only arguments are stored under their index. (A *keyword*
+      # named like a positional-only parameter is a `**kwargs` entry, e.g.
+      # `f(1, a=2)` for `def f(a, /, **kwargs)`; it is handled below.)
+      key = index if param.kind == param.POSITIONAL_ONLY else name
+      if key in buildable.__arguments__:
+        value = buildable.__arguments__[key]
       elif param.default is not param.empty:
         if include_defaults:
           value = param.default
@@ -947,7 +945,13 @@ def ordered_arguments(
   if include_var_keyword:
     for name, value in buildable.__arguments__.items():
       param = buildable.__signature_info__.parameters.get(name)
-      if param is None or param.kind == param.VAR_KEYWORD:
+      if param is None or param.kind in (
+          param.VAR_KEYWORD,
+          # Keywords that share their name with a parameter which cannot be
+          # passed by keyword are consumed by `**kwargs` as well.
+          param.POSITIONAL_ONLY,
+          param.VAR_POSITIONAL,
+      ):
         result[name] = value
 
   if not include_positional:
